@@ -150,6 +150,76 @@ def oracle(res):
     return found
 
 
+# ----------------------------------------------------------------------------------------------------------------
+# every named concept of the rule files, in every language: the operands of an intent tree built directly
+# ----------------------------------------------------------------------------------------------------------------
+PROBE_LITS = ["41_17", "52_06", "63_35", "74_89", "85_92"]
+# child positions that hold the name of the operation, not an operand (a number never stands there in practice):
+# the first child of `limit` is the function name (lim, lim sup): fi and sv say "raja-arvo kun" / "gränsvärdet då" for it
+NOT_AN_OPERAND = {("limit", 0)}
+
+
+def intent_probe(res):
+    """One expression per named concept (intent tag) of the rule files and per number of children the English rules are
+    written for, with a distinct decimal literal as every child (built with the intent attribute, so that the speech rules
+    of the tag are reached whatever the inference rules do).  A literal that most other languages speak (in the same style
+    and verbosity) and one language does not is an operand dropped by that language's rule for the concept."""
+    from . import c15
+    ar = c15.english_arities()
+    elements = {"mi", "mn", "mo", "mtext", "ms", "mrow", "mfrac", "msqrt", "mroot", "mstyle", "msub", "msup", "msubsup", "munder", "mover", "munderover",
+                "mmultiscripts", "mtable", "mtr", "mlabeledtr", "mtd", "menclose", "semantics", "math"}
+    shapes = []
+    for t in c15.rule_tags():
+        if t in c15.NOT_INTENT_TAGS or t in elements:
+            continue
+        for n in ar.get(t, [1, 2]):
+            if 1 <= n <= 5:
+                shapes.append((t, n))
+    langs = ST.languages()
+    verbs = ["Terse", "Medium", "Verbose"]
+    cfgs = [(l, st, v) for l in langs for st in ("ClearSpeak", "SimpleSpeak") for v in (verbs if res.tier != "quick" else [verbs[res.seed % 3]])]
+    sessions = []
+    for lang, style, verb in cfgs:
+        ops = [["set_rules_dir", C.RULES], ["set_preference", "TTS", "None"], ["set_preference", "Language", lang], ["set_preference", "SpeechStyle", style],
+               ["set_preference", "Verbosity", verb]]
+        for t, n in shapes:
+            lits = [l.replace("_", mark(lang)) for l in PROBE_LITS[:n]]
+            body = "<mrow intent='%s(%s)'>%s</mrow>" % (t, ",".join("$" + a for a in "abcde"[:n]),
+                                                        "<mo>&#x2063;</mo>".join("<mn arg='%s'>%s</mn>" % (a, l) for a, l in zip("abcde", lits)))
+            ops += [["set_mathml", X.math(body)], ["get_spoken_text"]]
+        sessions.append({"id": len(sessions), "ops": ops})
+    said = {}
+    for (lang, style, verb), r in zip(cfgs, C.run_harness(sessions)):
+        rr = (r.get("res") or [])[5:]
+        for j, (t, n) in enumerate(shapes):
+            sp = rr[2 * j + 1] if 2 * j + 1 < len(rr) else {}
+            s = sp.get("ok")
+            lits = [l.replace("_", mark(lang)) for l in PROBE_LITS[:n]]
+            said[(lang, style, verb, t, n)] = None if s is None else ([l in s for l in lits], s)
+    found = 0
+    for (lang, style, verb, t, n), v in sorted(said.items()):
+        if v is None:
+            continue
+        res.add_case(("intent-probe", lang, style, verb, t, n), nontrivial=n > 1)
+        for k in range(n):
+            if v[0][k] or (t, k) in NOT_AN_OPERAND:
+                continue
+            others = [said.get((l2, style, verb, t, n)) for l2 in langs if l2 != lang]
+            others = [o for o in others if o is not None]
+            if len(others) >= 3 and sum(1 for o in others if o[0][k]) * 3 >= len(others) * 2:
+                lit = PROBE_LITS[k].replace("_", mark(lang))
+                body = "<mrow intent='%s(%s)'>%s</mrow>" % (t, ",".join("$" + a for a in "abcde"[:n]),
+                                                            "<mo>&#x2063;</mo>".join("<mn arg='%s'>%s</mn>" % (a, l.replace("_", mark(lang))) for a, l in zip("abcde", PROBE_LITS[:n])))
+                found += 1
+                res.violation("%s/%s/%s: operand %d (%s) of the concept %s is not spoken (%r) although %d of %d other languages speak it"
+                              % (lang, style, verb, k + 1, lit, t, v[1][:120], sum(1 for o in others if o[0][k]), len(others)),
+                              {"kind": "literal", "prefs": {"Language": lang, "SpeechStyle": style, "Verbosity": verb}, "mathml": X.math(body), "literal": lit, "want": 1, "speech": v[1]})
+                if found >= 3:
+                    return found
+    res.extra["intent_probe"] = {"concept_shapes": len(shapes), "configurations": len(cfgs)}
+    return found
+
+
 _ARRAY_CACHE = {}
 
 
@@ -191,6 +261,7 @@ def run(res):
                       {"broken": "rule tie", "missing": missing[:5]}, found_input=False)
 
     def on_broken(log):
+        n_probe = intent_probe(res)
         if "RuleEvalTie" in log or "RuleSetsP" in log:
             # the cases that disagree, by index (printed by the tie file)
             m = re.findall(r"=\s*\[([^\]]*)\]\s*:\s*list N", log)
@@ -204,10 +275,11 @@ def run(res):
                         r_, tag, ids, hit = m_items[i]
                         det.append({"tie": "match", "rule_set": os.path.relpath(r_, C.RULES), "tag": tag, "tried_ids": list(ids), "hit": hit, "config": match_obs[m_items[i]]})
             res.extra["rule_engine_disagreements"] = det
-        return oracle(res) > 0
+        return oracle(res) + n_probe > 0
     proved = C.check_proofs(res, "C04", ["Props/C04.vo", "Tie/C04Tie.vo", "Tie/RuleEvalTie.vo"], "Props/C04.v", search=on_broken)
     if proved:
         oracle(res)
+        intent_probe(res)
     res.trusted += ["harness op h_yaml_texts (yaml-rust) for the optional words of the rule files",
                     "hook speech::verif::log_array (strings before / after the optional-text loop of replace_array_string)"]
     res.assumptions += ["which replacements a rule has and what its children say (match_pattern, xpath evaluation, ToOrdinal / ToCommonFraction) is exercised by the oracle, not proved",
